@@ -926,6 +926,8 @@ pub fn broadcast_fut_queue_with<T: Clone>(
 unsafe impl<T: Send + Sync + Clone> Send for BroadcastSender<T> {}
 unsafe impl<T: Send + Sync + Clone> Send for BroadcastReceiver<T> {}
 unsafe impl<T: Send + Sync + Clone> Send for BroadcastUniReceiver<T> {}
+unsafe impl<T: Send + Sync + Clone> Send for BroadcastFutSender<T> {}
+unsafe impl<T: Send + Sync + Clone> Send for BroadcastFutReceiver<T> {}
 
 #[cfg(test)]
 mod test {
